@@ -21,4 +21,5 @@ open PubModel.C07
 #print axioms gen_int_conv
 #print axioms gen_keywords
 #print axioms gen_operator_arms
+#print axioms gen_depth_limit
 #print axioms gen_cfg_ok
